@@ -35,6 +35,11 @@ def run_one(args):
         for extra in ("requirements.txt", "setup.py"):
             if os.path.isfile(os.path.join(repo, extra)):
                 shutil.copy(os.path.join(repo, extra), os.path.join(tmp, extra))
+        if mut.get("base"):
+            # the mutant is applied on top of a packaged behaviour-preserving refactoring (neutral/<id>/patch.diff)
+            b = subprocess.run(["git", "apply", "--unsafe-paths", os.path.join(VERIF, "neutral", mut["base"], "patch.diff")], cwd=tmp, capture_output=True, text=True)
+            if b.returncode != 0:
+                return mut["id"], "STALE", "base refactoring {} does not apply: {}".format(mut["base"], b.stderr[-120:])
         for edit in mut["edits"]:
             p = os.path.join(tmp, edit["file"])
             with open(p) as f:
